@@ -499,6 +499,23 @@ def run_cells(ctx, want_driver=True, deep=False):
                 b = rng.choice(batch_comps(rng))
                 for comps, bare in presentations([b], p, a, rng, allv=False):
                     check_cell(ctx, Wb, comps, bare, (p, a), "batch:" + origin, lines, recs, bcomp=b)
+            # two batch dimensions (2, 3): ints / slices / an index tensor on either of them
+            if not quick or (n, t) in ((3, 2), (2, 3), (1, 2), (2, 1), (4, 4)):
+                Wbb = world(n, t, inter, (2, 3))
+                b2s = [comp_int(0), comp_int(2), comp_int(-3), comp_int(-1), FULL, comp_slice(1, None, None), comp_slice(None, None, 2),
+                       comp_slice(-2, 5, None), comp_tensor([2, 0]), comp_tensor([-1, 1, 1], "list")]
+                for (p, a, origin) in rng.sample(sub, min(len(sub), 45 if quick else 300)):
+                    b1, b2 = rng.choice(batch_comps(rng)), rng.choice(b2s)
+                    adv = [b for b in (b1, b2) if b["k"] in ("tensor", "list")]
+                    for comps, bare in presentations([b1, b2], p, a, rng, allv=False):
+                        check_cell(ctx, Wbb, comps, bare, (p, a), "batch2:" + origin, lines, recs, bcomp=adv[0] if adv else b1)
+                for b1, b2 in ((comp_int(1), comp_int(-1)), (FULL, comp_int(0)), (comp_int(0), FULL), (comp_slice(1, None, None), FULL)):
+                    for comps, bare, eff in (([b1, b2], False, None), ([b1], False, None), ([b1], True, None),
+                                             ([b1, b2, ELL], False, (FULL, FULL)), ([b1, ELL], False, (FULL, FULL)),
+                                             ([ELL, b2], False, None)):
+                        if comps == [ELL, b2]:
+                            eff = (FULL, b2)   # lands on the task dimension
+                        check_cell(ctx, Wbb, comps, bare, eff, "batch2-short", lines, recs, bcomp=b1)
             # batch-only and short indices
             for b in batch_comps(rng):
                 short = [([b], False, None), ([b], True, None),            # batch-only branch
@@ -579,16 +596,51 @@ def _close(a, b, rtol=1e-9, atol=1e-9):
     return ok, f"max abs diff {float(d.max()) if d.numel() else 0.0:.3e}"
 
 
-def _numeric_one(d, mean, K, m_flat, n, t, inter, batch, gen, report):
+COV_FORMS = ("dense", "lazy", "diag", "root", "rootwide")
+
+
+def _cov_form(form, gen, batch, N):
+    """(K dense reference, covariance argument) for one storage form of the covariance.
+    dense = plain tensor (non-lazy torch path), lazy = DenseLinearOperator, diag = DiagLinearOperator (distinct
+    variances), root = RootLinearOperator with a square root, rootwide = RootLinearOperator with a wide N x (N+2) root."""
+    import torch
+    from linear_operator import to_linear_operator
+    from linear_operator.operators import DiagLinearOperator, RootLinearOperator
+    if form in ("dense", "lazy"):
+        K = _rand_cov(gen, batch, N)
+        return K, (K if form == "dense" else to_linear_operator(K))
+    if form == "diag":
+        dv = 0.5 + torch.rand(*batch, N, generator=gen, dtype=torch.float64) + torch.arange(N, dtype=torch.float64) / N
+        return torch.diag_embed(dv), DiagLinearOperator(dv)
+    r = N if form == "root" else N + 2
+    R = 0.5 * (torch.rand(*batch, N, r, generator=gen, dtype=torch.float64) * 2 - 1) / math.sqrt(N)
+    R = R + torch.eye(N, r, dtype=torch.float64)
+    return R @ R.transpose(-1, -2), RootLinearOperator(R)
+
+
+COND_MAX = 1e4   # problems are generated well conditioned; anything above is discarded and counted
+
+
+def _well_conditioned(ctx, K):
+    import torch
+    if K.numel() and float(torch.linalg.cond(K).max()) > COND_MAX:
+        ctx.count("discarded_ill_conditioned")
+        return False
+    return True
+
+
+def _numeric_one(d, mean, K, m_flat, n, t, inter, batch, gen, report, form="lazy"):
     import torch
     import warnings
     N = n * t
+    mean0, K0 = mean.clone(), K.clone()
     # mean / variance
     report("mean", *_close(d.mean, mean, 0, 0))
     var_ref = torch.diagonal(K, dim1=-1, dim2=-2)
     var_ref = var_ref.reshape(*batch, n, t) if inter else var_ref.reshape(*batch, t, n).transpose(-1, -2)
     report("variance", *_close(d.variance, var_ref))
     # log_prob, also with extra sample dimensions
+    first = None
     for sshape in ((), (3,)):
         v = torch.rand(*sshape, *batch, n, t, generator=gen, dtype=torch.float64) * 4 - 2
         ref = _logpdf(_flatten(v, inter), m_flat, K)
@@ -596,30 +648,76 @@ def _numeric_one(d, mean, K, m_flat, n, t, inter, batch, gen, report):
             warnings.simplefilter("ignore")
             got = d.log_prob(v)
         report("log_prob", *_close(got, ref, 1e-9, 1e-9))
+        if first is None:
+            first = (v, got.clone())
     # rsample with base samples: the sampling map is affine with Gram matrix K
-    E = torch.eye(N, dtype=torch.float64).reshape(N, *([1] * len(batch)), n, t).expand(N, *batch, n, t).contiguous()
-    with warnings.catch_warnings():
-        warnings.simplefilter("ignore")
-        s0 = d.rsample(base_samples=torch.zeros(*batch, n, t, dtype=torch.float64))
-        S = d.rsample(base_samples=E)
-    report("rsample-zero-base", *_close(s0, mean, 1e-12, 1e-12))
-    ok_shape = tuple(S.shape) == (N, *batch, n, t)
-    if not ok_shape:
-        report("rsample-base", False, f"shape {tuple(S.shape)}")
-    else:
-        A = (_flatten(S, inter) - m_flat).movedim(0, -1)     # (..., N, N): column k = image of e_k
-        report("rsample-base", *_close(A @ A.transpose(-1, -2), K, 1e-9, 1e-9))
-    bs = d.get_base_samples(torch.Size([2]))
-    report("get_base_samples-shape", tuple(bs.shape) == (2, *batch, n, t), f"shape {tuple(bs.shape)}")
-    # to_data_independent_dist
-    jit = 1e-3
-    with warnings.catch_warnings():
-        warnings.simplefilter("ignore")
-        di = d.to_data_independent_dist(jitter_val=jit)
+    if form != "rootwide":   # a non-square root takes base samples of the root's width: MultivariateNormal's business (C10)
+        E = torch.eye(N, dtype=torch.float64).reshape(N, *([1] * len(batch)), n, t).expand(N, *batch, n, t).contiguous()
+        with warnings.catch_warnings():
+            warnings.simplefilter("ignore")
+            s0 = d.rsample(base_samples=torch.zeros(*batch, n, t, dtype=torch.float64))
+            S = d.rsample(base_samples=E)
+        report("rsample-zero-base", *_close(s0, mean, 1e-12, 1e-12))
+        ok_shape = tuple(S.shape) == (N, *batch, n, t)
+        if not ok_shape:
+            report("rsample-base", False, f"shape {tuple(S.shape)}")
+        else:
+            A = (_flatten(S, inter) - m_flat).movedim(0, -1)     # (..., N, N): column k = image of e_k
+            report("rsample-base", *_close(A @ A.transpose(-1, -2), K, 1e-9, 1e-9))
+        bs = d.get_base_samples(torch.Size([2]))
+        report("get_base_samples-shape", tuple(bs.shape) == (2, *batch, n, t), f"shape {tuple(bs.shape)}")
+    # to_data_independent_dist (jitter 1e-3 and the legal 0.0)
     pos = torch.tensor([[i * t + a if inter else a * n + i for a in range(t)] for i in range(n)])
-    ref = K[..., pos.unsqueeze(-1), pos.unsqueeze(-2)] + jit * torch.eye(t, dtype=torch.float64)
-    report("to_data_independent_dist-mean", *_close(di.mean, mean, 0, 0))
-    report("to_data_independent_dist-cov", *_close(di.covariance_matrix, ref, 1e-12, 1e-12))
+    for jit in (1e-3, 0.0):
+        with warnings.catch_warnings():
+            warnings.simplefilter("ignore")
+            di = d.to_data_independent_dist(jitter_val=jit)
+        ref = K[..., pos.unsqueeze(-1), pos.unsqueeze(-2)] + jit * torch.eye(t, dtype=torch.float64)
+        report("to_data_independent_dist-mean", *_close(di.mean, mean, 0, 0))
+        report("to_data_independent_dist-cov", *_close(di.covariance_matrix, ref, 1e-12, 1e-12))
+    # indexing against the dense joint (numeric twin of the tagged cells, for every covariance storage form)
+    bsl = (slice(None),) * len(batch)
+    r0 = min(1, n - 1)    # non-empty: densifying an empty selection of a DiagLinearOperator fails inside linear_operator
+    for idx, rows, cols in (((n - 1, slice(None)), [n - 1], list(range(t))), ((slice(None), t - 1), list(range(n)), [t - 1]),
+                            ((slice(r0, None), slice(None, None, 2)), list(range(r0, n)), list(range(0, t, 2))),
+                            ((torch.tensor([-1, 0]), slice(None)), [n - 1, 0], list(range(t)))):
+        sub = d[bsl + idx]
+        order = [(i, a) for i in rows for a in cols] if (inter or len(rows) == 1 or len(cols) == 1) else \
+            [(i, a) for a in cols for i in rows]
+        pp = torch.tensor([int(pos[i, a]) for i, a in order], dtype=torch.long)
+        refc = K[..., pp.unsqueeze(-1), pp.unsqueeze(-2)] if len(order) else K[..., :0, :0]
+        with warnings.catch_warnings():
+            warnings.simplefilter("ignore")
+            gotc = sub.covariance_matrix
+        report("getitem-cov", *_close(gotc, refc, 1e-10, 1e-10))
+        report("getitem-mean", *_close(sub.mean, mean[bsl + idx], 0, 0))
+    # expand: the same joint replicated over new leading batch dimensions.  (On an object built from a plain tensor
+    # covariance `expand` raises AttributeError `_covar` on the current tree: recorded by run_numeric as an observation,
+    # `expand` not being one of the observables the property lists.)
+    if form == "dense":
+        return _numeric_history(d, mean, K, mean0, K0, var_ref, first, report)
+    e = d.expand(torch.Size([3]) + torch.Size(batch))
+    report("expand-mean", *_close(e.mean, mean.expand(3, *batch, n, t), 0, 0))
+    report("expand-variance", *_close(e.variance, var_ref.expand(3, *batch, n, t)))
+    with warnings.catch_warnings():
+        warnings.simplefilter("ignore")
+        report("expand-log_prob", *_close(e.log_prob(first[0]), _logpdf(_flatten(first[0], inter), m_flat, K).expand(3, *batch),
+                                          1e-9, 1e-9))
+    _numeric_history(d, mean, K, mean0, K0, var_ref, first, report)
+
+
+def _numeric_history(d, mean, K, mean0, K0, var_ref, first, report):
+    """history / aliasing: after all of the above the object answers as it did first, and its inputs are untouched"""
+    import warnings
+    with warnings.catch_warnings():
+        warnings.simplefilter("ignore")
+        d.covariance_matrix
+        d.confidence_region()
+        again = d.log_prob(first[0])
+    report("history-log_prob", *_close(again, first[1], 0, 0))
+    report("history-mean", *_close(d.mean, mean0, 0, 0))
+    report("history-variance", *_close(d.variance, var_ref))
+    report("inputs-untouched", bool((mean == mean0).all()) and bool((K == K0).all()), "mean / covariance tensor passed in was modified")
 
 
 def run_numeric(ctx):
@@ -630,45 +728,48 @@ def run_numeric(ctx):
     rng = ctx.rng("numeric")
     gen = torch.Generator().manual_seed(rng.torch_seed())
     shapes = [(2, 3), (3, 2), (4, 2), (1, 3), (3, 1), (2, 4)] + ([] if ctx.quick else [(3, 4), (4, 3), (2, 2), (4, 1), (1, 4)])
-    reps = 1 if ctx.quick else 4
-    for (n, t), inter, batch, lazy, _ in itertools.product(shapes, (True, False), ((), (2,)), (True, False), range(reps)):
+    reps = 1 if ctx.quick else 3
+    batches = ((), (2,), (2, 3)) if ctx.quick else ((), (2,), (2, 3), (1, 2, 2))
+    for (n, t), inter, batch, form, _ in itertools.product(shapes, (True, False), batches, COV_FORMS, range(reps)):
+        if ctx.quick and len(batch) >= 2 and (n, t) not in ((2, 3), (3, 2)):
+            continue
         N = n * t
         lay = "interleaved" if inter else "noninterleaved"
-        K = _rand_cov(gen, batch, N)
-        cond = float(torch.linalg.cond(K).max())
-        if cond > 1e6:
-            ctx.count("discarded_ill_conditioned")
+        K, covarg = _cov_form(form, gen, batch, N)
+        if not _well_conditioned(ctx, K):
             continue
         mean = torch.rand(*batch, n, t, generator=gen, dtype=torch.float64) * 4 - 2
-        d = MultitaskMultivariateNormal(mean, to_linear_operator(K) if lazy else K, interleaved=inter)
-        desc = f"numeric n={n} t={t} {lay} batch={list(batch)} lazy={lazy}"
-        rp = {"n": n, "t": t, "inter": inter, "batch": list(batch), "lazy": lazy, "numeric": True}
+        d = MultitaskMultivariateNormal(mean, covarg, interleaved=inter)
+        desc = f"numeric n={n} t={t} {lay} batch={list(batch)} cov={form}"
+        rp = {"n": n, "t": t, "inter": inter, "batch": list(batch), "form": form, "numeric": True}
         m_flat = _flatten(mean, inter)
 
-        def report(what, ok, info):
+        def report(what, ok, info, desc=desc, rp=rp, lay=lay):
             ctx.case(f"{desc} {what}")
             ctx.count("numeric_checks")
             if not ok:
                 ctx.fail(f"numeric:{what}:{lay}", f"{desc}: {what} differs from the dense joint ({info})", dict(rp, what=what))
         try:
-            _numeric_one(d, mean, K, m_flat, n, t, inter, batch, gen, report)
+            _numeric_one(d, mean, K, m_flat, n, t, inter, batch, gen, report, form)
         except Exception as e:   # the implementation raised on a valid call: a failure of that site, not of the harness
             import traceback
             site = [f.name for f in traceback.extract_tb(e.__traceback__) if "multitask_multivariate_normal" in f.filename]
             report((site[-1] if site else "call") + "-raises", False, f"{type(e).__name__}: {str(e)[:150]}")
+    run_broadcast_ctor(ctx, gen)
     # rsample without base samples: moments of the joint (statistical, 6-sigma bounds; deterministic per seed)
-    for (n, t), inter in (((3, 2), True), ((3, 2), False), ((2, 3), False), ((2, 3), True)):
+    for (n, t), inter, form in (((3, 2), True, "lazy"), ((3, 2), False, "lazy"), ((2, 3), False, "diag"), ((2, 3), True, "root"),
+                                ((2, 3), False, "rootwide")):
         N = n * t
-        K = _rand_cov(gen, (), N)
+        K, covarg = _cov_form(form, gen, (), N)
         mean = torch.rand(n, t, generator=gen, dtype=torch.float64) * 4 - 2
-        d = MultitaskMultivariateNormal(mean, to_linear_operator(K), interleaved=inter)
+        d = MultitaskMultivariateNormal(mean, covarg, interleaved=inter)
         torch.manual_seed(rng.torch_seed())
         ns = 40000
         with warnings.catch_warnings():
             warnings.simplefilter("ignore")
             S = d.rsample(torch.Size([ns]))
         lay = "interleaved" if inter else "noninterleaved"
-        ctx.case(f"numeric rsample-moments n={n} t={t} {lay}")
+        ctx.case(f"numeric rsample-moments n={n} t={t} {lay} cov={form}")
         if tuple(S.shape) != (ns, n, t):
             ctx.fail(f"numeric:rsample:{lay}", f"rsample shape {tuple(S.shape)}", {"n": n, "t": t, "inter": inter})
             continue
@@ -679,17 +780,78 @@ def run_numeric(ctx):
         zm = float(((Y.mean(0) - _flatten(mean, inter)).abs() / torch.sqrt(torch.diagonal(K) / ns)).max())
         ctx.notes.setdefault("rsample_moment_z", []).append(round(max(z, zm), 2))
         if z > 6.5 or zm > 6.5:
-            ctx.fail(f"numeric:rsample:{lay}", f"n={n} t={t} {lay}: sample moments of rsample() are {max(z, zm):.1f} "
+            ctx.fail(f"numeric:rsample:{lay}", f"n={n} t={t} {lay} cov={form}: sample moments of rsample() are {max(z, zm):.1f} "
                      f"standard errors from the joint's ({ns} samples)", {"n": n, "t": t, "inter": inter, "what": "rsample"})
     # constructors
     run_constructors(ctx, gen)
+
+
+def run_broadcast_ctor(ctx, gen):
+    """Legal-but-unusual constructor arguments: a mean with a singleton point / task dimension, a covariance batch
+    broader than the mean's (and vice versa), validate_args=True.  The joint is the broadcast one."""
+    import torch
+    import warnings
+    from linear_operator import to_linear_operator
+    from gpytorch.distributions import MultitaskMultivariateNormal
+    for (n, t), inter in itertools.product(((2, 3), (3, 2), (1, 3)), (True, False)):
+        N = n * t
+        lay = "interleaved" if inter else "noninterleaved"
+        for kind, mshape, kbatch in (("mean-1xt", (1, t), ()), ("mean-nx1", (n, 1), ()), ("cov-batch", (n, t), (2,)),
+                                     ("mean-batch", (2, n, t), ()), ("both-batch", (2, 1, n, t), (3,)), ("validate", (n, t), ())):
+            if (kind == "mean-nx1" and n == 1) or (kind == "mean-1xt" and t == 1):
+                continue    # ambiguous: a 1 x 1 mean
+            K = _rand_cov(gen, kbatch, N)
+            m = torch.rand(*mshape, generator=gen, dtype=torch.float64) * 4 - 2
+            desc = f"constructor-broadcast {kind} n={n} t={t} {lay}"
+            rp = {"n": n, "t": t, "inter": inter, "numeric": True, "what": "broadcast-" + kind}
+            ctx.case(desc)
+            ctx.count("numeric_checks")
+            try:
+                with warnings.catch_warnings():
+                    warnings.simplefilter("ignore")
+                    d = MultitaskMultivariateNormal(m, to_linear_operator(K), interleaved=inter, validate_args=(kind == "validate"))
+                    bshape = torch.broadcast_shapes(m.shape[:-2], K.shape[:-2])
+                    full = m.expand(*bshape, n, t)
+                    Kf = K.expand(*bshape, N, N)
+                    v = torch.rand(*bshape, n, t, generator=gen, dtype=torch.float64) * 2 - 1
+                    checks = (("mean", d.mean, full, 0, 0),
+                              ("variance", d.variance, (torch.diagonal(Kf, dim1=-1, dim2=-2).reshape(*bshape, n, t) if inter else
+                                                        torch.diagonal(Kf, dim1=-1, dim2=-2).reshape(*bshape, t, n).transpose(-1, -2)), 1e-9, 1e-9),
+                              ("log_prob", d.log_prob(v), _logpdf(_flatten(v, inter), _flatten(full, inter), Kf), 1e-9, 1e-9))
+            except Exception as e:
+                ctx.fail(f"numeric:broadcast-{kind}:raises", f"{desc}: {type(e).__name__}: {str(e)[:150]}", rp)
+                continue
+            for what, got, ref, rt, at in checks:
+                ok, info = _close(got, ref, rt, at)
+                if not ok:
+                    ctx.fail(f"numeric:broadcast-{kind}-{what}:{lay}", f"{desc}: {what} is not that of the broadcast joint ({info})", rp)
+
+
+def _batch_shapes_with_task(t, max_dims):
+    """(batch shape, task position): the task dimension at every position among up to `max_dims` batch dimensions, the
+    other dimensions equal to each other / to t, unequal, or of size 1."""
+    out = [((t,), 0)]
+    others = {2: [(2,), (3,), (1,), (t,)], 3: [(2, 2), (2, 3), (1, 2), (3, 1), (t, t)], 4: [(2, 2, 2), (2, 3, 1)]}
+    for nb in range(2, max_dims + 1):
+        for pos in range(nb):
+            for oth in others[nb]:
+                shp = list(oth)
+                shp.insert(pos, t)
+                if (tuple(shp), pos) not in out:
+                    out.append((tuple(shp), pos))
+    return out
 
 
 def run_constructors(ctx, gen):
     import torch
     import warnings
     from linear_operator import to_linear_operator
+    from linear_operator.operators import DiagLinearOperator, RootLinearOperator
     from gpytorch.distributions import MultitaskMultivariateNormal, MultivariateNormal
+
+    def task_cov(form, bshape, n):
+        """per-task covariance in one storage form -> (dense reference, argument for MultivariateNormal)"""
+        return _cov_form(form, gen, bshape, n)
 
     def joint_check(what, res, means, covs, desc, rp):
         try:
@@ -710,10 +872,13 @@ def run_constructors(ctx, gen):
             return
         N = n * t
         Kexp = torch.zeros(*means.shape[:-2], N, N, dtype=torch.float64)
+        grid = torch.tensor([[i * t + a if res._interleaved else a * n + i for a in range(t)] for i in range(n)])
         for a in range(t):
-            pos = torch.tensor([i * t + a if res._interleaved else a * n + i for i in range(n)])
+            pos = grid[:, a]
             Kexp[..., pos.unsqueeze(-1), pos.unsqueeze(-2)] = covs[..., a, :, :]
-        ok, info = _close(res.covariance_matrix, Kexp, 1e-12, 1e-12)
+        with warnings.catch_warnings():
+            warnings.simplefilter("ignore")
+            ok, info = _close(res.covariance_matrix, Kexp, 1e-10, 1e-10)
         if not ok:
             ctx.fail(f"numeric:{what}-cov:{lay}", f"{desc}: covariance is not block-independent over tasks ({info})", rp)
             return
@@ -728,54 +893,111 @@ def run_constructors(ctx, gen):
         ok, info = _close(res.variance, torch.diagonal(covs, dim1=-1, dim2=-2).transpose(-1, -2))
         if not ok:
             ctx.fail(f"numeric:{what}-variance:{lay}", f"{desc}: variance ({info})", rp)
+        # the result used like any other multitask distribution: task block of every point, one task, one point
+        with warnings.catch_warnings():
+            warnings.simplefilter("ignore")
+            di = res.to_data_independent_dist(jitter_val=0.0)
+            ok, info = _close(di.covariance_matrix, Kexp[..., grid.unsqueeze(-1), grid.unsqueeze(-2)], 1e-10, 1e-10)
+            if not ok:
+                ctx.fail(f"numeric:{what}-to_data_independent_dist:{lay}", f"{desc}: task blocks ({info})", rp)
+            a = t - 1
+            ok, info = _close(res[..., :, a].covariance_matrix, covs[..., a, :, :], 1e-10, 1e-10)
+            ok2, info2 = _close(res[..., :, a].mean, means[..., a, :], 0, 0)
+            if not (ok and ok2):
+                ctx.fail(f"numeric:{what}-getitem-task:{lay}", f"{desc}: d[..., :, {a}] is not task {a} ({info}; mean {info2})", rp)
+            i = n - 1
+            ok, info = _close(res[..., i, :].covariance_matrix, torch.diag_embed(covs[..., :, i, i]), 1e-10, 1e-10)
+            if not ok:
+                ctx.fail(f"numeric:{what}-getitem-point:{lay}", f"{desc}: d[..., {i}, :] ({info})", rp)
     observed = {}
-    for (n, t) in ((3, 2), (2, 3), (4, 2)):
-        # from_batch_mvn: batch shapes and task_dim values
-        for bshape, task_dim in (((t,), -1), ((t,), 0), ((2, t), -1), ((2, t), 1), ((t, 2), 0), ((t, 2), -2), ((2, t, 3), 1), ((2, t, 3), -2)):
-            K = _rand_cov(gen, bshape, n)
+    sizes = ((3, 2), (2, 3)) if ctx.quick else ((3, 2), (2, 3), (4, 2), (2, 2), (1, 3), (3, 1))
+    forms = ("lazy", "diag", "root", "dense")
+    for (n, t) in sizes:
+        # from_batch_mvn: the task dimension at every position of 1..3 (thorough: 4) batch dimensions, both signs of task_dim
+        for bshape, pos in _batch_shapes_with_task(t, 3 if ctx.quick else 4):
+            for task_dim in (pos, pos - len(bshape)):
+                form = forms[(len(bshape) + pos + (task_dim < 0)) % len(forms)] if ctx.quick else None
+                for form in ([form] if form else forms):
+                    K, karg = task_cov(form, bshape, n)
+                    if not _well_conditioned(ctx, K):
+                        continue
+                    m = torch.rand(*bshape, n, generator=gen, dtype=torch.float64)
+                    desc = f"from_batch_mvn n={n} t={t} batch_shape={list(bshape)} task_dim={task_dim} cov={form}"
+                    rp = {"ctor": "from_batch_mvn", "n": n, "t": t, "bshape": list(bshape), "task_dim": task_dim, "form": form}
+                    try:
+                        with warnings.catch_warnings():
+                            warnings.simplefilter("ignore")
+                            res = MultitaskMultivariateNormal.from_batch_mvn(MultivariateNormal(m, karg), task_dim=task_dim)
+                    except Exception as e:
+                        ctx.fail("numeric:from_batch_mvn:raises", f"{desc}: {type(e).__name__}: {str(e)[:150]}", rp)
+                        continue
+                    joint_check("from_batch_mvn", res, m.movedim(pos, -2), K.movedim(pos, -3), desc, rp)
+                    if form == "lazy":
+                        observed["fromBatchMvn"] = (type(res.lazy_covariance_matrix).__name__, res._interleaved)
+        # from_independent_mvns: every storage form of the task covariances, all equal or mixed; batch shapes incl. broadcasting
+        if t >= 2:
+            mixes = [(f,) * t for f in forms] + [tuple(("diag", "lazy", "root", "dense")[k % 4] for k in range(t)),
+                                                 tuple(("lazy", "diag")[k % 2] for k in range(t))]
+            for fmix in mixes:
+                for bshapes in (((),) * t, ((2,),) * t, ((2, 3),) * t, ((2,),) + ((),) * (t - 1), ((),) * (t - 1) + ((3, 1),)):
+                    if ctx.quick and len(bshapes[0]) + len(bshapes[-1]) >= 2 and fmix[0] not in ("diag", "lazy"):
+                        continue
+                    parts = [task_cov(f, bs, n) for f, bs in zip(fmix, bshapes)]
+                    if not all(_well_conditioned(ctx, kk) for kk, _ in parts):
+                        continue
+                    ms = [torch.rand(*bs, n, generator=gen, dtype=torch.float64) for bs in bshapes]
+                    desc = f"from_independent_mvns n={n} t={t} batch_shapes={[list(b) for b in bshapes]} cov={'/'.join(fmix)}"
+                    rp = {"ctor": "from_independent_mvns", "n": n, "t": t, "bshapes": [list(b) for b in bshapes], "forms": list(fmix)}
+                    try:
+                        with warnings.catch_warnings():
+                            warnings.simplefilter("ignore")
+                            res = MultitaskMultivariateNormal.from_independent_mvns(
+                                [MultivariateNormal(mm, ka) for mm, (_, ka) in zip(ms, parts)])
+                    except Exception as e:
+                        ctx.fail("numeric:from_independent_mvns:raises", f"{desc}: {type(e).__name__}: {str(e)[:150]}", rp)
+                        continue
+                    full = torch.broadcast_shapes(*bshapes)
+                    joint_check("from_independent_mvns", res, torch.stack([mm.expand(*full, n) for mm in ms], -2),
+                                torch.stack([kk.expand(*full, n, n) for kk, _ in parts], -3), desc, rp)
+                    if fmix == ("lazy",) * t:
+                        observed["fromIndependentMvns"] = (type(res.lazy_covariance_matrix).__name__, res._interleaved)
+        # from_repeated_mvn: num_tasks incl. 1, storage forms, batch shapes
+        for bshape, form, nt in itertools.product(((), (2,), (2, 3)), forms, sorted({1, t, 3})):
+            if ctx.quick and len(bshape) == 2 and form in ("root", "dense"):
+                continue
+            K, karg = task_cov(form, bshape, n)
+            if not _well_conditioned(ctx, K):
+                continue
             m = torch.rand(*bshape, n, generator=gen, dtype=torch.float64)
-            bm = MultivariateNormal(m, to_linear_operator(K))
-            desc = f"from_batch_mvn n={n} t={t} batch_shape={list(bshape)} task_dim={task_dim}"
-            rp = {"ctor": "from_batch_mvn", "n": n, "t": t, "bshape": list(bshape), "task_dim": task_dim}
+            desc = f"from_repeated_mvn n={n} num_tasks={nt} batch_shape={list(bshape)} cov={form}"
+            rp = {"ctor": "from_repeated_mvn", "n": n, "t": nt, "bshape": list(bshape), "form": form}
             try:
-                res = MultitaskMultivariateNormal.from_batch_mvn(bm, task_dim=task_dim)
+                with warnings.catch_warnings():
+                    warnings.simplefilter("ignore")
+                    res = MultitaskMultivariateNormal.from_repeated_mvn(MultivariateNormal(m, karg), num_tasks=nt)
             except Exception as e:
-                ctx.fail("numeric:from_batch_mvn:raises", f"{desc}: {type(e).__name__}: {e}", rp)
+                ctx.fail("numeric:from_repeated_mvn:raises", f"{desc}: {type(e).__name__}: {str(e)[:150]}", rp)
                 continue
-            td = task_dim if task_dim >= 0 else len(bshape) + task_dim
-            joint_check("from_batch_mvn", res, m.movedim(td, -2), K.movedim(td, -3), desc, rp)
-            observed["fromBatchMvn"] = (type(res.lazy_covariance_matrix).__name__, res._interleaved)
-        # from_independent_mvns
-        for bshape in ((), (2,)):
-            Ks = [_rand_cov(gen, bshape, n) for _ in range(t)]
-            ms = [torch.rand(*bshape, n, generator=gen, dtype=torch.float64) for _ in range(t)]
-            if t < 2:
-                continue
-            mvns = [MultivariateNormal(mm, to_linear_operator(kk)) for mm, kk in zip(ms, Ks)]
-            desc = f"from_independent_mvns n={n} t={t} batch_shape={list(bshape)}"
-            rp = {"ctor": "from_independent_mvns", "n": n, "t": t, "bshape": list(bshape)}
-            try:
-                res = MultitaskMultivariateNormal.from_independent_mvns(mvns)
-            except Exception as e:
-                ctx.fail("numeric:from_independent_mvns:raises", f"{desc}: {type(e).__name__}: {e}", rp)
-                continue
-            joint_check("from_independent_mvns", res, torch.stack(ms, -2), torch.stack(Ks, -3), desc, rp)
-            observed["fromIndependentMvns"] = (type(res.lazy_covariance_matrix).__name__, res._interleaved)
-        # from_repeated_mvn
-        for bshape in ((), (2,)):
-            K = _rand_cov(gen, bshape, n)
-            m = torch.rand(*bshape, n, generator=gen, dtype=torch.float64)
-            desc = f"from_repeated_mvn n={n} t={t} batch_shape={list(bshape)}"
-            rp = {"ctor": "from_repeated_mvn", "n": n, "t": t, "bshape": list(bshape)}
-            try:
-                res = MultitaskMultivariateNormal.from_repeated_mvn(MultivariateNormal(m, to_linear_operator(K)), num_tasks=t)
-            except Exception as e:
-                ctx.fail("numeric:from_repeated_mvn:raises", f"{desc}: {type(e).__name__}: {e}", rp)
-                continue
-            joint_check("from_repeated_mvn", res, m.unsqueeze(-2).expand(*bshape, t, n), K.unsqueeze(-3).expand(*bshape, t, n, n),
+            joint_check("from_repeated_mvn", res, m.unsqueeze(-2).expand(*bshape, nt, n), K.unsqueeze(-3).expand(*bshape, nt, n, n),
                         desc, rp)
-            observed["fromRepeatedMvn"] = (type(res.lazy_covariance_matrix).__name__, res._interleaved)
+            if form == "lazy":
+                observed["fromRepeatedMvn"] = (type(res.lazy_covariance_matrix).__name__, res._interleaved)
     _state["ctor_observed"] = observed
+    try:
+        MultitaskMultivariateNormal(torch.zeros(2, 3, dtype=torch.float64), torch.eye(6, dtype=torch.float64)).expand(torch.Size([2]))
+        ctx.notes["observation_expand_on_tensor_covariance"] = "ok"
+    except Exception as e:
+        ctx.notes["observation_expand_on_tensor_covariance"] = f"raises {type(e).__name__}: {e}"
+    # observation (outside the property's list of observables): arithmetic / add_jitter inherited from MultivariateNormal
+    # rebuild the object with the default layout flag
+    try:
+        K, karg = _cov_form("lazy", gen, (), 6)
+        dni = MultitaskMultivariateNormal(torch.rand(2, 3, generator=gen, dtype=torch.float64), karg, interleaved=False)
+        ctx.notes["observation_inherited_ops_keep_layout"] = {
+            "add_jitter": dni.add_jitter(1e-3)._interleaved is False, "mul": (dni * 2.0)._interleaved is False,
+            "add": (dni + 1.0)._interleaved is False}
+    except Exception as e:
+        ctx.notes["observation_inherited_ops_keep_layout"] = f"{type(e).__name__}: {e}"
 
 
 def run_data_independent_tags(ctx, want_driver=True):
@@ -954,6 +1176,11 @@ def correspondence(ctx, want_driver=True, deep=False):
     run_numeric(ctx)
     run_data_independent_tags(ctx, want_driver)
     run_cells(ctx, want_driver, deep)
+    if ctx.broken and not deep and not _unknown_failures(ctx):
+        # run.py starts `search` only when there are no failures at all; failures matching a known finding must not
+        # keep the failing-input search from running
+        ctx.notes["deep_search_after_break"] = True
+        _deep_search(ctx)
     kinds = {}
     for f in ctx.failures:
         kinds[f["key"]] = kinds.get(f["key"], 0) + 1
@@ -961,12 +1188,30 @@ def correspondence(ctx, want_driver=True, deep=False):
         ctx.notes["failures_by_key"] = kinds
 
 
+def _unknown_failures(ctx):
+    import fnmatch
+    known = C.known_findings(ID)
+    return [f for f in ctx.failures if not any(fnmatch.fnmatch(f["key"], k["match"]) for k in known)]
+
+
+def _deep_search(ctx):
+    """Failing-input search: every oracle here is the hand-written specification (torch on plain tensors, dense joint),
+    none depends on the translator output or on the Lean build; run at the thorough bounds."""
+    tier, ctx.tier = ctx.tier, "thorough"
+    try:
+        run_numeric(ctx)
+        if not _unknown_failures(ctx):
+            run_cells(ctx, want_driver=False, deep=True)
+    finally:
+        ctx.tier = tier
+
+
 def search(ctx, broken):
     """A proof / the tie broke and the quick correspondence found no failing input: the specification oracle in
     `check_cell` does not depend on the model, so search = the same oracle on the exhaustive product."""
-    if ctx.failures:
+    if _unknown_failures(ctx) or ctx.notes.get("deep_search_after_break"):
         return
-    run_cells(ctx, want_driver=False, deep=True)
+    _deep_search(ctx)
 
 
 def replay(ctx, payload):
